@@ -161,6 +161,8 @@ void w19_init(void)
 void w19_ghost_subst_class(int cls) { g_class[3 * NPOOL] = cls; }
 void w19_set_subst_identifier(int sym) { the_subst_expr = expression_t::create_identifier(symbol_t(sym)); }
 void w19_root_identifier(int t, int sym, int pos) { root[t] = expression_t::create_identifier(symbol_t(sym), position_t(pos)); }
+/* the children are arbitrary nodes: in particular their kinds are (a clone must not treat some kinds of children differently) */
+void w19_kid_kind(int idx, int kind) { kid[idx]->kind = (kind_t)kind; }
 void w19_ghost(int idx, int cls_kid, int cls_clone, int cls_subst, int subst_mode)
 {
     g_class[idx] = cls_kid; g_class[NPOOL + idx] = cls_clone; g_class[2 * NPOOL + idx] = cls_subst; g_subst_mode[idx] = subst_mode;
